@@ -278,6 +278,15 @@ func indexType(ntype reflect.Type) (reflect.Type, bool) {
 	return nil, false
 }
 
+// isKeyFor reports whether a value of type key can be looked up in the map (or interface) m.
+func isKeyFor(m, key reflect.Type) bool {
+	m = dereference(m)
+	if m == nil || m.Kind() != reflect.Map || isInterface(key) {
+		return m != nil
+	}
+	return key != nil && key.AssignableTo(m.Key())
+}
+
 func isFuncType(ntype reflect.Type) (reflect.Type, bool) {
 	ntype = dereference(ntype)
 	if ntype == nil {
